@@ -103,6 +103,10 @@ def c_project(ctx, case):
 
 def g_train(draw):
     C, F = gen.dims(draw, maxC=3, maxF=3)
+    sparse = gen.choice(draw, [False, False, False, False, True])
+    if sparse:
+        # a UBM of a dozen components of which the training set reaches two to four
+        C, F = gen.choice(draw, [9, 10, 12, 17]), min(F, 2)
     r = gen.rng(draw)
     scales = gen.feature_scales(draw, F, lo=-2, hi=2)
     ubm = gen.gmm_params(draw, C, F, scales=scales, offs=np.zeros(F))
@@ -111,6 +115,9 @@ def g_train(draw):
     R = gen.integer(draw, 1, 3)
     Ttrue = np.sqrt(ubm["variances"])[:, :, None] * r.normal(0, 1, (C, F, R))
     dead = gen.integer(draw, 0, C - 1) if (C >= 2 and gen.choice(draw, [False, False, True])) else None
+    if sparse:
+        alive = sorted(set(int(v) for v in r.choice(C, size=gen.integer(draw, 2, 4), replace=False)) | {C - 1 if gen.boolean(draw) else 8})
+        dead = [c for c in range(C) if c not in alive]
     items = []
     for _ in range(n_items):
         w = r.normal(0, 1, R)
